@@ -589,6 +589,14 @@ pub trait BasisFunction<ArgList>: Sized {
     requires x.ok(), params@.len() == Self::ARGUMENT_COUNT,
     ensures r@ == self.bf_call(x@, sc_seq(params@)), r.ok(), r@.c == 1;
 }
+/// `F: Fn(&DVector<S>) -> DVector<S>` (the callable of `invariant_function`): a user callable of the independent variable
+/// only; `if_call` is its ghost function (panics inside it: out of scope)
+pub trait InvariantFn: Sized {
+  spec fn if_call(&self, x: MatR) -> MatR;
+  fn call(&self, x: &DMatrix) -> (r: DMatrix)
+    requires x.ok(),
+    ensures r@ == self.if_call(x@), r.ok(), r@.c == 1;
+}
 impl BaseFunc {
   /// when may the boxed callable be invoked without panicking (slice long enough for the wrapped index mapping)
   pub uninterp spec fn g_req(&self, x: MatR, params: Seq<real>) -> bool;
@@ -605,6 +613,10 @@ impl BaseFunc {
       forall |x: MatR, p: Seq<real>| #[trigger] r.g_req(x, p) == rq(x, p),
   { unimplemented!() }
 }
+/// Rust allocations are at most isize::MAX bytes, so a Vec whose element type has at least two bytes (String: 24,
+/// ModelBasisFunction: 64) has at most usize::MAX / 2 elements. Used for the model's counts only.
+#[verifier::external_body]
+pub proof fn axiom_vec_len_two_byte_elems<T>(v: Vec<T>) ensures 2 * v@.len() <= usize::MAX {}
 /// rule X13: `names.into_iter().map(|s| s.as_ref().to_string()).collect()`: the same names, as Strings, in order
 #[verifier::external_body]
 pub fn __vp_to_strings(names: Vec<Name>) -> (r: Vec<Name>) ensures r@ == names@ { unimplemented!() }
@@ -795,13 +807,30 @@ pub struct LevenbergMarquardt { _p: core::marker::PhantomData<u8> }
 impl LevenbergMarquardt {
   /// ASSUMED (m1): `minimize` touches the problem only through the trait methods, so it returns a problem
   /// reachable from its argument by finitely many `set_params` calls (lm.rs:255-301, 347-433, 506-662).
+  /// ASSUMED: for one solver configuration `minimize` is a function of the problem it is given (no hidden state, no
+  /// randomness): `sp_minimize` names that function, so "the report that is returned is the optimizer's own report
+  /// for this problem" can be stated (C04) and parallel/sequential runs can be compared (C11)
   #[verifier::external_body]
   pub fn minimize<O: LeastSquaresProblem>(&self, target: O) -> (r: (O, MinimizationReport))
     requires target.lsp_inv()
-    ensures r.0.lsp_inv(), target.lsp_frame(&r.0)
+    ensures r.0.lsp_inv(), target.lsp_frame(&r.0), r == self.sp_minimize(target)
   { unimplemented!() }
+  pub uninterp spec fn sp_minimize<O>(&self, target: O) -> (O, MinimizationReport);
   #[verifier::external_body]
   pub fn default() -> (r: Self) { unimplemented!() }
+  // the configuration methods of levenberg-marquardt 0.14 (lm.rs:120-240): each returns a (possibly different) solver
+  #[verifier::external_body] pub fn with_stepbound(self, stepbound: Sc) -> (r: Self) { unimplemented!() }
+  #[verifier::external_body] pub fn with_ftol(self, ftol: Sc) -> (r: Self) { unimplemented!() }
+  #[verifier::external_body] pub fn with_xtol(self, xtol: Sc) -> (r: Self) { unimplemented!() }
+  #[verifier::external_body] pub fn with_gtol(self, gtol: Sc) -> (r: Self) { unimplemented!() }
+  #[verifier::external_body] pub fn with_tol(self, tol: Sc) -> (r: Self) { unimplemented!() }
+  #[verifier::external_body] pub fn with_patience(self, patience: usize) -> (r: Self) { unimplemented!() }
+  #[verifier::external_body] pub fn with_scale_diag(self, scale_diag: bool) -> (r: Self) { unimplemented!() }
 }
+impl Clone for LevenbergMarquardt { #[verifier::external_body] fn clone(&self) -> (r: Self) ensures r == *self { unimplemented!() } }
+impl Copy for LevenbergMarquardt {}
+/// nalgebra::convert (simba SupersetOf) from an f64 literal to the scalar type: the same real number
+#[verifier::external_body]
+pub fn convert(x: F64) -> (r: Sc) ensures r@ == x@ { unimplemented!() }
 
 } // verus!
